@@ -3,13 +3,13 @@
 # usage: tools/tie_mutants.sh seeded/C01-a seeded/C05-a ...
 for d in "$@"; do
   wt=/tmp/tiemut_$$; rm -rf $wt; mkdir -p $wt/rockit
-  cp /repo/rockit/sampling_method.py /repo/rockit/direct_collocation.py /repo/rockit/multiple_shooting.py /repo/rockit/single_shooting.py /repo/rockit/stage.py $wt/rockit/
+  cp /repo/rockit/sampling_method.py /repo/rockit/direct_collocation.py /repo/rockit/multiple_shooting.py /repo/rockit/single_shooting.py /repo/rockit/stage.py /repo/rockit/spline_method.py /repo/rockit/direct_method.py $wt/rockit/
   (cd $wt && patch -p1 --fuzz=3 -f -s < /verif/$d/patch.diff >/dev/null 2>&1)
   if diff -rq /repo/rockit $wt/rockit 2>/dev/null | grep -q "differ"; then :; else
     echo "$d: patch does not change the translated files (or no longer applies)"; rm -rf $wt; continue; fi
   PYTHONPATH=/verif /venv/bin/python -c "
 from harness.translate import check_tie
-for w in ('Intg','Dc','Smp','Shoot','Layout'):
+for w in ('Intg','Dc','Smp','Shoot','Layout','Spline','Free'):
     r=check_tie('$wt', w); print('$d', w+':', 'tie ok' if r['ok'] else 'BROKEN: '+r['stage']+' | '+r['log'].strip().replace('\n',' ')[:160])" 2>&1 | grep -v WARNING
   rm -rf $wt /verif/work/gen_$(python3 -c "import hashlib,os;print(hashlib.sha256(os.path.realpath('$wt').encode()).hexdigest()[:10])")
 done
